@@ -1,5 +1,5 @@
 (* C11 -- Geometric operations are rigid motions with the documented effect.
-   Property theorems only (each is `exact <lemma>` from Proofs/Rot.v, Proofs/RotMotion.v or Proofs/RotEns.v), over the real
+   Property theorems only (each is `exact <lemma>` from Proofs/Rot.v, Proofs/RotMotion.v, Proofs/RotEns.v or Proofs/RotSeq.v), over the real
    numbers, for the SAME Gallina definitions (Model/Rot.v, parametric in the field operations) that the
    correspondence shards execute over Q against the implementation.
 
@@ -11,7 +11,7 @@
    - arctan2 itself: "the dihedral is t" is stated as "(arg1, arg2) = rho (sin t, cos t) with rho > 0";
    - which atoms yield_bfs selects (graph search: C15) -- `sel` is a parameter, constrained by hypotheses. *)
 From Coq Require Import Reals Lra List ZArith Lia.
-From Molli Require Import Common.Field3 Common.Field3R Model.Rot Model.RotEns Proofs.Rot Proofs.RotMotion Proofs.RotEns.
+From Molli Require Import Common.Field3 Common.Field3R Model.Rot Model.RotEns Model.RotSeq Proofs.Rot Proofs.RotMotion Proofs.RotEns Proofs.RotSeq.
 Import ListNotations.
 Local Open Scope R_scope.
 
@@ -249,6 +249,56 @@ Theorem C11_ens_align_reports
 Proof. exact (ens_align_reports dev func). Qed.
 Print Assumptions C11_ens_align_reports.
 
+(* ---- sequences of operations on one live structure (Model/RotSeq.v) -------------------------------- *)
+(* Which atoms a rotate_dihedral call turns is a function of the graph the structure has AT THAT MOMENT and of the
+   direction a2 -> a3 given in THAT call: the least set containing a3 that is closed under bonds not leading back into
+   a2.  Nothing is carried over from earlier calls (the other end of the same bond, the graph before an edit). *)
+Theorem C11_far_side_of_current_graph (G : graph) (n i2 i3 : nat) (sel : nat -> bool) :
+  far_side G n i2 i3 = Some sel ->
+  (i3 < n)%nat /\ i2 <> i3 /\ adjb G i2 i3 = true /\
+  sel i3 = true /\ sel i2 = false /\
+  (forall y, sel y = true -> (y < n)%nat) /\
+  (forall x y, (y < n)%nat -> sel x = true -> adjb G x y = true -> y <> i2 -> sel y = true) /\
+  (forall Q : nat -> Prop, Q i3 ->
+     (forall x y, (x < n)%nat -> (y < n)%nat -> Q x -> adjb G x y = true -> y <> i2 -> Q y) -> forall y, sel y = true -> Q y).
+Proof. exact (far_side_spec G n i2 i3 sel). Qed.
+Print Assumptions C11_far_side_of_current_graph.
+
+(* one rotate_dihedral step in ANY state (coordinates X, bonds G) it is applied to: the target is reached (read from
+   either end of the chain), the atoms behind a2 -> a3 in G keep their shape, no other atom moves, and every bond of G
+   keeps its length *)
+Theorem C11_seq_rotate_dihedral_step (X : list vecR) (G : graph) (i1 i2 i3 i4 : nat) (st ct n2 rho : R)
+        (X' : list vecR) (G' : graph) :
+  sstep ROps (X, G) (SRotDih i1 i2 i3 i4 st ct n2 rho) = Some (X', G') ->
+  rd_pre X G i1 i2 i3 i4 st ct n2 rho -> rd_post X G i1 i2 i3 i4 st ct n2 rho X' G'.
+Proof. exact (seq_rotate_dihedral_step X G i1 i2 i3 i4 st ct n2 rho X' G'). Qed.
+Print Assumptions C11_seq_rotate_dihedral_step.
+
+(* every operation of the session vocabulary (rotate_dihedral, translate / transform of the whole structure or through a
+   substructure, connect, del_bond, add_atom, del_atom) has its documented effect on the state it is applied to ... *)
+Theorem C11_seq_step_effect (s : sstate R) (op : sop R) (s' : sstate R) :
+  sstep ROps s op = Some s' -> sop_pre s op -> sop_post s op s'.
+Proof. exact (sstep_effect s op s'). Qed.
+Print Assumptions C11_seq_step_effect.
+
+(* ... hence along EVERY sequence of operations each step has that effect on the state the previous steps left *)
+Theorem C11_seq_every_step (ops : list (sop R)) (s : sstate R) (tr : list (sstate R)) :
+  srun ROps s ops = Some tr -> trace_ok s ops tr.
+Proof. exact (srun_trace_ok ops s tr). Qed.
+Print Assumptions C11_seq_every_step.
+
+(* the same bond driven as (a1,a2,a3,a4) and then as (a4,a3,a2,a1) on the same structure *)
+Theorem C11_seq_both_ends (X : list vecR) (G : graph) (i1 i2 i3 i4 : nat) (st ct n2 rho st' ct' n2' rho' : R)
+        (s1 s2 : sstate R) :
+  srun ROps (X, G) [SRotDih i1 i2 i3 i4 st ct n2 rho; SRotDih i4 i3 i2 i1 st' ct' n2' rho'] = Some [s1; s2] ->
+  rd_pre X G i1 i2 i3 i4 st ct n2 rho ->
+  rd_pre (fst s1) (snd s1) i4 i3 i2 i1 st' ct' n2' rho' ->
+  rd_post X G i1 i2 i3 i4 st ct n2 rho (fst s1) (snd s1) /\
+  rd_post (fst s1) (snd s1) i4 i3 i2 i1 st' ct' n2' rho' (fst s2) (snd s2) /\
+  dihedral_args ROps (pt (fst s2) i1) (pt (fst s2) i2) (pt (fst s2) i3) (pt (fst s2) i4) n2' = (rho' * st', rho' * ct').
+Proof. exact (seq_both_ends X G i1 i2 i3 i4 st ct n2 rho st' ct' n2' rho' s1 s2). Qed.
+Print Assumptions C11_seq_both_ends.
+
 (* ---- the hypotheses are satisfiable by non-trivial data --------------------------------------------- *)
 Example C11_ex_rodrigues :
   unit (1, 0, 0) /\ unit (3/5, 4/5, 0) /\ 1 + dot ROps (1, 0, 0) (3/5, 4/5, 0) <> 0.
@@ -314,4 +364,24 @@ Proof.
   cbv [fleb ROps fofZ].
   assert (E : Rleb 100 0 = false) by (apply Rleb_false; lra). rewrite E. cbn [negb all_some map snd fst].
   eexists. eexists. reflexivity.
+Qed.
+
+(* a five-atom structure 0-1-2-3 with a branch 2-4: the preconditions of rotate_dihedral((0,1,2,3)) hold; the atoms turned
+   are {2,3,4} from one end and {0,1} from the other; after del_bond(2,4) atom 4 stays behind, after connect(4,0) it
+   belongs to the other side *)
+Example C11_ex_sequence :
+  let X := [(1, 0, 0); (0, 0, 0); (0, 0, 1); (0, 1, 1); (1, 0, 2)] : list vecR in
+  let G := [(0, 1); (1, 2); (2, 3); (2, 4)]%nat in
+  rd_pre X G 0 1 2 3 (3/5) (4/5) 1 1 /\
+  (exists sel, far_side G 5 1 2 = Some sel /\ map sel (seq 0 5) = [false; false; true; true; true]) /\
+  (exists sel, far_side G 5 2 1 = Some sel /\ map sel (seq 0 5) = [true; true; false; false; false]) /\
+  (exists sel, far_side (graph_del_bond 2 4 G) 5 1 2 = Some sel /\ map sel (seq 0 5) = [false; false; true; true; false]) /\
+  (exists sel, far_side ((4, 0)%nat :: graph_del_bond 2 4 G) 5 2 1 = Some sel /\ map sel (seq 0 5) = [true; true; false; false; true]).
+Proof.
+  cbv zeta. split; [|repeat split; eexists; (split; [reflexivity | reflexivity])].
+  unfold rd_pre, pt. simpl nth. simpl length.
+  repeat match goal with |- _ /\ _ => split end; try lia; try reflexivity; try lra.
+  - intros sel H. vm_compute in H. injection H as <-. reflexivity.
+  - f3. lra.
+  - unfold dihedral_args. cbn [fst snd]. f3. lra.
 Qed.
